@@ -102,8 +102,10 @@ class KGFnWrapper:
         # Python lists become Klong lists: kg_asarray keeps ragged lists and lists mixing numbers
         # with strings as lists of their elements (np.asarray raised on the former and turned the
         # numbers of the latter into strings)
+        # None is Klong's :undefined (inside the interpreter a None argument marks an elided
+        # argument, so f(None) built a projection instead of calling f)
         backend = self.klong._backend
-        return [backend.kg_asarray(x) if isinstance(x, list) else x for x in args]
+        return [KLONG_UNDEFINED if x is None else backend.kg_asarray(x) if isinstance(x, list) else x for x in args]
 
     def __call__(self, *args, **kwargs):
         # Try to resolve dynamically first if we have a symbol
@@ -516,6 +518,9 @@ def get_fn_arity(f):
     This arity is needed to populate the KGFn.
 
     NOTE: TODO: it maybe easier / better to do this at parse time vs late.
+
+    The operand of a monad is not wrapped in a list; it is scanned as well, so
+    that {-x} and {#x} are monads and not nilads.
     """
     if isinstance(f, KGFn) and isinstance(f.a, KGSym) and not in_map(f.a, reserved_fn_symbols):
        return sum(1 for x in set(f.args) if in_map(x, reserved_fn_symbols) or (x is None))
